@@ -11,10 +11,10 @@ VM="${VM:-/var/tmp/verif-m}"; RM="${RM:-/var/tmp/repo-m}"
 if [ ! -d "$VM" ]; then git -C /verif worktree add -q --detach "$VM" HEAD; fi
 git -C "$VM" reset -q --hard; git -C "$VM" checkout -q -f --detach "$(git -C /verif rev-parse HEAD)"
 if [ ! -d "$RM" ]; then git -C /repo worktree add -q --detach "$RM" HEAD; fi
-git -C "$RM" checkout -q -- . ; git -C "$RM" clean -fdq; git -C "$RM" checkout -q --detach "$(git -C /repo rev-parse HEAD)"
+git -C "$RM" reset -q --hard 2>/dev/null; git -C "$RM" clean -fdq; git -C "$RM" checkout -q -f --detach "$(git -C /repo rev-parse HEAD)"
 if [ "$PATCH" != "none" ]; then
   # seeded patches were written against an earlier /repo HEAD: fall back to a 3-way merge
-  git -C "$RM" apply "$PATCH" 2>/dev/null || git -C "$RM" apply --3way "$PATCH" 2>/dev/null || { echo "PATCH DOES NOT APPLY"; exit 2; }
+  git -C "$RM" apply "$PATCH" 2>/dev/null || git -C "$RM" apply --3way "$PATCH" 2>/dev/null || { echo "PATCH DOES NOT APPLY"; git -C "$RM" reset -q --hard; exit 2; }
   git -C "$RM" reset -q
 fi
 if [ $TESTS -eq 1 ]; then
@@ -26,4 +26,4 @@ for id in "$@"; do
   echo "$out" | grep -E "^(VIOLATION|KNOWN-FINDING|INFRA|HARNESS|C[0-9]+ tier)" | cut -c1-400 | head -12
   echo "$out" | grep -A1 "^VIOLATION" | grep "^  " | head -3 | cut -c1-500
 done
-git -C "$RM" checkout -q -- . ; git -C "$RM" clean -fdq
+git -C "$RM" reset -q --hard; git -C "$RM" clean -fdq
